@@ -190,15 +190,26 @@ _US = [0, 1, 500000, 999999]
 def trial_roundtrip(kind: int, tid: int, fval: float, ival: int, sval: str, bval: bool, n_meas: int, mval: float,
                     created_us: int, done_us: int) -> bool:
   """
-  pre: 0 <= kind <= 4 and 0 < tid and len(sval) <= 1 and 0 <= n_meas <= 1 and 0 <= created_us <= 3 and 0 <= done_us <= 3
+  pre: 0 <= kind <= 4 and 1 <= tid <= 3 and len(sval) <= 1 and 0 <= n_meas <= 1 and 0 <= created_us <= 3 and 0 <= done_us <= 3
   post: _
   """
   kind = conc(kind, 0, 4)
-  sl = os.environ.get('VERIF_SLICE')
-  if sl is not None and kind != int(sl):
-    return True
+  tid_arg = tid
+  tid = [1, 12, 2 ** 40][conc(tid, 1, 3) - 1]       # (a symbolic id costs an int<->string conversion in every solver query)
   n_meas = conc(n_meas, 0, 1)
-  created_us, done_us = conc(created_us, 0, 3), conc(done_us, 0, 3)     # times are concrete (symbolic datetime: inconclusive)
+  sl = os.environ.get('VERIF_SLICE')
+  if sl is not None and kind * 2 + n_meas != int(sl):
+    return True
+  args = (kind, tid_arg, fval, ival, sval, bval, n_meas, mval, created_us, done_us)
+  created_us = conc(created_us, 0, 3)                 # times are concrete (symbolic datetime: inconclusive)
+  if kind >= 3:
+    if tid != 1:
+      return True                                     # (the id dimension is covered on the unfinished trials)
+    done_us = conc(done_us, 0, 3)
+    if created_us in (1, 2) and done_us != 0:
+      return True                                     # time patterns: every creation x {0}, {0, 3} x every completion
+  else:
+    done_us = 0                                       # no completion time on an unfinished trial
   if not (_finite(fval) and _finite(mval)):
     return True
   t = vz.Trial(id=tid, parameters={'f': fval, 'i': ival, 's': sval, 'b': 'True' if bval else 'False'})
@@ -234,7 +245,7 @@ def trial_roundtrip(kind: int, tid: int, fval: float, ival: int, sval: str, bval
   ok = ok and back.creation_time == t.creation_time
   ok = ok and back.completion_time == t.completion_time
   ok = ok and p2 == p1
-  return finish(ok, (kind, tid, fval, ival, sval, bval, n_meas, mval, created_us, done_us))
+  return finish(ok, args)
 
 
 _KEYS = ['', 'k', ':', 'a:b']
